@@ -491,3 +491,46 @@ Proof.
       intuition (subst; vm_compute; discriminate).
   - intros s0 Hs0. cbn in Hs0. intuition (subst; vm_compute; discriminate).
 Qed.
+
+(* ---------- the two walk disciplines agree (Model/RegionFlat.v) ----------
+   For EVERY hierarchy: an arc the region-by-region discipline resolves is resolved by the flat one to the
+   same block (no hypothesis).  Hence on a hierarchy where the region discipline resolves every arc of
+   every block - the boolean arcs_resolve, which the extracted checker evaluates on every exported instance
+   after every stage - a walk in one discipline IS a walk in the other, and every theorem above about the
+   flat walk holds for the region walk as well. *)
+From V Require Import Model.RegionFlat.
+
+Theorem C01_region_resolution_is_flat_resolution :
+  forall h cur t c, resolve_region h cur t = Some c -> resolve_flat h cur t = Some c.
+Proof. exact resolve_region_flat. Qed.
+Print Assumptions C01_region_resolution_is_flat_resolution.
+
+Theorem C01_region_walk_is_flat_walk :
+  forall h strict, arcs_resolve h = true ->
+    forall n e ds tr st,
+      (exists b, find h n = Some b /\ is_region b = false) ->
+      (WTrace h (resolve_region h) strict n e ds tr st <-> WTrace h (resolve_flat h) strict n e ds tr st).
+Proof. exact region_walk_is_flat_walk. Qed.
+Print Assumptions C01_region_walk_is_flat_walk.
+
+Theorem C01_flat_preservation_transfers_to_region_walk :
+  forall h h' strict (Rel : env -> env -> Prop),
+    arcs_resolve h = true -> arcs_resolve h' = true ->
+    forall n,
+      (exists b, find h n = Some b /\ is_region b = false) ->
+      (exists b, find h' n = Some b /\ is_region b = false) ->
+      (forall e e' ds tr st, Rel e e' ->
+         WTrace h (resolve_flat h) strict n e ds tr st -> WTrace h' (resolve_flat h') strict n e' ds tr st) ->
+      forall e e' ds tr st, Rel e e' ->
+        WTrace h (resolve_region h) strict n e ds tr st -> WTrace h' (resolve_region h') strict n e' ds tr st.
+Proof. exact flat_preservation_transfers. Qed.
+Print Assumptions C01_flat_preservation_transfers_to_region_walk.
+
+(* non-vacuity: the hierarchy with a loop region of the example above resolves every arc region-wise *)
+Example C01_arcs_resolve_example :
+  arcs_resolve [ mkNode 1 0 [] [] (KRegion 1 0 0 [5; 20; 7; 8] 0 true);
+                 mkNode 5 1 [7; 20] [] (KOrig 1);
+                 mkNode 20 1 [8] [] (KRegion 2 21 21 [21] 1 true);
+                 mkNode 21 20 [21; 8] [21] (KOrig 1);
+                 mkNode 7 1 [] [] (KOrig 1); mkNode 8 1 [] [] (KOrig 1) ] = true.
+Proof. vm_compute. reflexivity. Qed.
